@@ -40,6 +40,7 @@ F_raised_on = z3.Function("raised_on", Val, Val)
 F_oidx = z3.Function("origin_idx", Val, I)         # index of the loop iteration in which an exception object was raised
 F_mk = z3.Function("construct", Val, Val, Val)   # construct(factory, element-sequence)
 F_mkseq = z3.Function("built_from", Val, Val)     # the element sequence a constructed container was built from
+F_lookup = z3.Function("lookup", Val, Val, Val)   # d[k] for a symbolic mapping
 F_contains = z3.Function("contains", Val, Val, B)
 F_ItemKey = z3.Function("ItemKey", Val, Val)
 F_tuple_of = z3.Function("tuple_of", Val, Val)   # tuple(x) as a sequence value
